@@ -18,6 +18,47 @@ if ! cargo build --release --offline >"$HERE/harness/target/.build.log" 2>&1; th
   echo "INFRA property=$ID build of harness against /repo failed (exit 2: inconclusive)"
   exit 2
 fi
+# ---- coverage-guided tier (thorough only, selected properties): libFuzzer campaign through
+# /verif/fuzz; its statistics are handed to tvh, which records them in the evidence file.
+FUZZ_RC=0
+unset VERIF_FUZZ_STATS
+case "$ID" in C02|C03|C08|C09|C12|C15) FT="$(echo "$ID" | tr 'C' 'c')" ;; *) FT="" ;; esac
+if [ "$TIER" = "thorough" ] && [ -n "$FT" ] && [ "${VERIF_NO_FUZZ:-0}" != "1" ]; then
+  cd "$HERE/fuzz" || exit 2
+  if RUSTFLAGS="--cfg tokio_unstable --cfg turmoil_verif" cargo +nightly fuzz build --fuzz-dir . -s none "$FT" >"$HERE/harness/target/.fuzzbuild.log" 2>&1; then
+    CORP="$HERE/fuzz/corpus/$FT"; rm -rf "$CORP"; mkdir -p "$CORP"
+    # deterministic starting corpus: an empty-ish input and a few fixed pseudo-random ones
+    python3 - "$CORP" <<'PY'
+import sys, hashlib
+d = sys.argv[1]
+open(d + "/zero", "wb").write(b"\0" * 8)
+for i in range(6):
+    b = b"".join(hashlib.sha256(b"tvh-corpus-%d-%d" % (i, j)).digest() for j in range(6))
+    open(d + "/seed%d" % i, "wb").write(b[: 48 + 24 * i])
+PY
+    FLOG="$HERE/harness/target/.fuzzrun-$FT.log"
+    RUSTFLAGS="--cfg tokio_unstable --cfg turmoil_verif" timeout --signal=KILL 900 \
+      cargo +nightly fuzz run --fuzz-dir . -s none "$FT" -- -runs="${VERIF_FUZZ_RUNS:-150000}" -max_total_time=240 \
+      -seed="$((VERIF_SEED + 1))" -len_control=0 -max_len=512 -print_final_stats=1 >"$FLOG" 2>&1
+    frc=$?
+    grep -E "^VIOLATION|^  detail" "$FLOG" | cut -c1-2000
+    if grep -q "^VIOLATION" "$FLOG"; then FUZZ_RC=1; fi
+    DONE_LINE="$(grep -E "DONE|stat::number_of_executed_units" "$FLOG" | tr '\n' ' ')"
+    RUNS="$(grep -oE "stat::number_of_executed_units: *[0-9]+" "$FLOG" | grep -oE "[0-9]+$" | tail -1)"
+    COV="$(grep -oE "cov: [0-9]+" "$FLOG" | tail -1 | grep -oE "[0-9]+")"
+    FTS="$(grep -oE "ft: [0-9]+" "$FLOG" | tail -1 | grep -oE "[0-9]+")"
+    CORPN="$(ls "$CORP" | wc -l)"
+    export VERIF_FUZZ_STATS="{\"engine\":\"libFuzzer (cargo-fuzz, no sanitizer)\",\"target\":\"$FT\",\"executions\":${RUNS:-0},\"edge_coverage\":${COV:-0},\"features\":${FTS:-0},\"corpus_files\":${CORPN:-0},\"exit_code\":$frc,\"violations\":$FUZZ_RC}"
+    if [ $frc -ne 0 ] && [ $FUZZ_RC -eq 0 ]; then
+      echo "NOTE property=$ID fuzz campaign ended with exit $frc without a VIOLATION line (timeout or libFuzzer error); see $FLOG"
+    fi
+  else
+    echo "NOTE property=$ID coverage-guided tier unavailable (cargo +nightly fuzz build failed); random and exhaustive tiers still run"
+    export VERIF_FUZZ_STATS="{\"engine\":\"libFuzzer\",\"target\":\"$FT\",\"unavailable\":true}"
+  fi
+  cd "$HERE/harness" || exit 2
+fi
+
 LIMIT="${VERIF_TIMEOUT_S:-}"
 if [ -z "$LIMIT" ]; then
   if [ "$TIER" = "thorough" ]; then LIMIT=7200; else LIMIT=1500; fi
@@ -32,4 +73,5 @@ if [ $rc -ne 0 ] && [ $rc -ne 1 ]; then
   echo "INFRA property=$ID tvh exited with $rc (exit 2: inconclusive)"
   exit 2
 fi
+if [ $FUZZ_RC -ne 0 ]; then exit 1; fi
 exit $rc
